@@ -22,7 +22,9 @@ EXPLANATION = (
     "current bucket head and makes it the head of the same hash's bucket; delete unlinks via bucket head or predecessor "
     "before freeing); (4) the bucket index is hash % cached-bucket-count in both the head reader and the head writer; "
     "(5) every bucket-head write maintains the occupancy bitmap (bitmap configurations); (6) key and value offsets are "
-    "distinct phantom types.")
+    "distinct phantom types; (7) the link / value-offset readers return, through wrappers, only the field they read (no "
+    "constant, no parameter), payload reads take exactly the stored length and nothing in the lib transfers data with a "
+    "primitive that may stop short (Read::read / Write::write).")
 NOT_DECIDED = ("acyclicity, in-bounds offsets and 'no key twice' as facts about all reachable states; the independent "
                "decoder the property envisages is a dynamic oracle.")
 ASSUMPTIONS = ["flow-insensitive origin tracing: a rule accepts a value only if *all* its possible origins are the expected one"]
